@@ -75,7 +75,7 @@ def _canon(vt, x):
     return json.dumps({k: v.tobytes().hex() for k, v in sorted(x.asnumpy().items())})
 
 
-def run_case(part, vt, seed, timeout=10.0):
+def run_case(part, vt, seed, timeout=60.0):   # generous: a loaded machine must not look like a deadlock
     """Run the real allreduce_sum for one partition; returns a dict of observations."""
     from nifty.cl.utilities import allreduce_sum
     n = sum(part)
@@ -167,8 +167,12 @@ class C23(C.Check):
         cases = [(tuple(c["part"]), c["vtype"]) for c in ctx.corpus()] + gen_cases(ctx)
         self.obs = []
         checks = []
+        nerr = 0
         for i, (p, vt) in enumerate(cases):
-            o = run_case(p, vt, ctx.seed * 100003 + i)
+            if nerr >= 3:       # blocked tasks cost a full timeout each: three witnesses are enough
+                break
+            o = run_case(p, vt, ctx.seed * 100003 + i, timeout=60.0 if nerr == 0 else 15.0)
+            nerr += any(e is not None for e in o["errors"])
             self.obs.append(o)
             part = C.clist([str(int(x)) for x in p])
             if any(e is not None for e in o["errors"]) or (vt == "other" and o["tree"] is None):
